@@ -58,7 +58,8 @@ Oracle = monitors on the virtual-time trace, phrased from the statement (nothing
      for consecutive doPoll starts s, s' of a module (the end of the run counts as s') let D = s + I where I is the
      interval in effect; an interval-affecting external event at tc moves D to tc + I_new.  Between D and s'
        (a) the thread must not be idle: time not spent inside a driver call <= EPS = 1 ms, and
-       (b) no poll function (same module, same function, same handler key) may be *started* twice
+       (b) no poll function (same module, same function, same handler key) may be *started* twice, and at most ONE
+           slow read (of any parameter of any module) may be started
      - i.e. the poll comes at the latest one sweep (every other function once) after it became due.
   M2 slow poll ("every polled parameter is refreshed no later than a bounded multiple of the slow interval"): for
      consecutive reads r, r' of a polled parameter (end of run counts as r') the time the thread was idle (not inside a
@@ -76,7 +77,8 @@ Oracle calibration (weaker readings taken, derived by reading __pollThread of th
   * "one sweep of work" is not turned into a number of seconds: M1(b) counts starts instead (weaker than any bound in
     seconds that sums one duration per function, and independent of how long the explorer makes a call).  The loop does
     all due main polls and then ONE slow read per turn, so between "due" and "started" there is at most the rest of a
-    turn and the main polls of modules earlier in the list: every function at most once.
+    turn and the main polls of modules earlier in the list: every doPoll at most once and - because a turn makes ONE slow
+    read, failed or not - at most one slow read (the one of the turn in which the poll became due).
   * the first main poll: the anchor is the started-callback with D = t_started + max(I, 0.1): after a communication
     failure at start-up the code deliberately waits 0.1 s "for reconnection" before polling; tolerated.
   * after an interval-affecting event D := tc + I_new also when that is *later* than the old D (slowing down is allowed
@@ -741,9 +743,15 @@ def judge(world, run):
                                 f'{idle:.4g}s in between'))
                 else:
                     cnt = {}
-                    for c in busy.started_between(due, t):
+                    window = busy.started_between(due, t)
+                    for c in window:
                         cnt[(c[1], c[2])] = cnt.get((c[1], c[2]), 0) + 1
                     twice = sorted(k for k, v in cnt.items() if v > 1)
+                    slow = [c for c in window if FNKIND.get(c[2]) not in ('doPoll', 'initialReads', 'write')]
+                    if len(slow) > 1 and not twice:
+                        res.append((f'C13:main-poll:more-than-one-slow-read-while-due:after={after}',
+                                    f'{what}, was due at t={rel(run, due)} (interval {ival:g}); meanwhile the slow reads '
+                                    f'{", ".join(f"{c[1]}.{c[2]} ({c[5]}, {c[4] - c[3]:g}s)" for c in slow)} were started'))
                     if twice:
                         res.append((f'C13:main-poll:more-than-one-sweep-while-due:after={after}',
                                     f'{what}, was due at t={rel(run, due)} (interval {ival:g}); meanwhile '
